@@ -11,14 +11,14 @@ from vpbt.ctx import Violation
 
 @st.composite
 def case_strategy(draw):
-    prog = draw(gfi_strat.st_program(cfg={"nmin": 1}))
+    prog = draw(gfi_strat.st_program(cfg={"nmin": 2, "nmax": 4}, kinds=["vmap", "vmap", "repeat", "scan", "static", "switch", "mask", "dimap", "mix", "or_else"]))
     prog["key"] = draw(st.integers(0, 2**31 - 1))
     prog["flag_repr"] = "arr"
     prog["idx_repr"] = "arr"
-    prog["picks"] = draw(gfi_hist.st_picks(4))
+    prog["picks"] = draw(st.lists(st.tuples(st.integers(0, 50), st.integers(0, 99).map(lambda i: i / 100.0)).map(list), min_size=2, max_size=4))
     prog["flags"] = draw(st.lists(st.booleans(), min_size=4, max_size=4))
-    prog["mrepr"] = draw(st.sampled_from(["py", "arr", "arr", "jit"]))
-    prog["style"] = draw(st.sampled_from(["or", "arr"]))
+    prog["mrepr"] = draw(st.sampled_from(["py", "arr", "arr", "jit", "jit"]))
+    prog["style"] = draw(st.sampled_from(["or", "arr", "arr"]))
     prog["upicks"] = draw(gfi_hist.st_picks(3))
     prog["uflags"] = draw(st.lists(st.booleans(), min_size=3, max_size=3))
     return prog
